@@ -1,4 +1,5 @@
 import LJT.Proofs.SeqHuff
+import LJT.Proofs.SeqInterval
 import LJT.Proofs.ProgAC
 import LJT.Proofs.ProgRef
 import LJT.Model.ProgHuff
@@ -224,5 +225,22 @@ example : (mkCDerived false false tinyAc).isSome = true ∧ (mkDDerived false fa
   unfold mkCDerived mkDDerived
   simp only [tiny_codes, tiny_sizes]
   decide +kernel
+
+
+/-- **A whole restart interval of a sequential Huffman scan round-trips**: blocks of any number of components in
+MCU order (`Blk.slot` = the component's position in the scan), each coded with the DC and AC tables of its
+component and with the DC coefficient sent as the difference to that component's previous block
+(`last_dc_val[]`, reset to `pred` = 0 at the start of the interval).  `encodeBlocks` is the function the Lean
+writer emits whole scans with (Model/T81Enc.lean `mcuBits`, byte-identical to libjpeg-turbo's files: `seqbytes`,
+`seqfile`); decoding its bits - followed by anything - block by block with the tables of the same slots returns
+exactly the blocks and leaves exactly the rest.  Hypotheses: each slot's encoder and decoder tables derive from
+one table pair, 63 AC coefficients per block below 2^15 in magnitude, and DC differences below 2^15 (what the C
+encoder checks before coding). -/
+theorem sequential_interval_roundtrip (ct : Nat → Option (CDerived × CDerived)) (dt : Nat → Option (DDerived × DDerived))
+    (blocks : List Blk) (pred : Array Int) (bits rest : List Bool)
+    (hall : ∀ b ∈ blocks, TabsOK ct dt b.slot ∧ b.ac.length = 63 ∧ ∀ v ∈ b.ac, v.natAbs < 32768)
+    (hd : DiffsOK pred blocks) (he : encodeBlocks ct pred blocks = some bits) :
+    decodeBlocks dt pred (blocks.map (·.slot)) (bits ++ rest) = some (blocks, rest) :=
+  decodeBlocks_encodeBlocks ct dt blocks pred bits rest hall hd he
 
 end LJT.Props.C03
